@@ -1016,6 +1016,10 @@ class ObjEvaluator(Evaluator):
             return True
         if isinstance(v, bool) or v is None or (isinstance(v, Rat) and v.is_const()):
             return bool(v) if not isinstance(v, Rat) else v.const_value() != 0
+        if isinstance(v, Rat) and getattr(self, "number_truth_policy", None) is not None:
+            t_ = self.number_truth_policy(v, test)
+            if t_ is not None:
+                return bool(t_)
         raise AnalysisError("E7: branch `%s` does not fold (line %d)" % (unparse(test)[:60], test.lineno))
 
     def e_BoolOp(self, node, env):
@@ -1026,6 +1030,10 @@ class ObjEvaluator(Evaluator):
             truth = r if isinstance(r, bool) else (bool(r) if isinstance(r, (list, dict, str, tuple)) or r is None else
                                                    True if isinstance(r, (Obj, Sym, SStr)) else
                                                    (r.const_value() != 0) if isinstance(r, Rat) and r.is_const() else None)
+            if truth is None and isinstance(r, Rat) and getattr(self, "number_truth_policy", None) is not None:
+                # the truth value of a number: zero / non-zero -- a case distinction the rule makes (it answers for the class it
+                # is running and runs the other class too)
+                truth = self.number_truth_policy(r, node)
             if truth is None:
                 raise AnalysisError("E7: boolean operand does not fold (line %d)" % node.lineno)
             if is_and and not truth:
